@@ -14,6 +14,7 @@ import (
 	"time"
 
 	"github.com/bradenaw/juniper/chans"
+	"github.com/bradenaw/juniper/container/deque"
 	"github.com/bradenaw/juniper/container/tree"
 	"github.com/bradenaw/juniper/iterator"
 	"github.com/bradenaw/juniper/parallel"
@@ -27,6 +28,7 @@ var extraScale = map[string]func(c *Case, res map[string]any, fail func(string, 
 	"pipe-trysend-storm":   scalePipeTrySendStorm,
 	"pipe-idle-next":       scalePipeIdleNext,
 	"chans-merge-iface":    scaleChansMergeIface,
+	"deque-gc":             scaleDequeGC,
 }
 
 // ---- C03: keys and values that were deleted or moved elsewhere can be garbage collected.
@@ -159,7 +161,7 @@ func scaleTreeGC(c *Case, res map[string]any, fail func(string, ...any)) {
 		}
 		return out
 	}
-	deadline := time.Now().Add(4 * time.Second)
+	deadline := time.Now().Add(20 * time.Second)
 	var miss []int
 	for {
 		runtime.GC()
@@ -495,4 +497,142 @@ func scaleChansMergeIface(c *Case, res map[string]any, fail func(string, ...any)
 			}
 		}
 	}
+}
+
+// ---- C04: elements that have been popped are not retained by the deque - wherever the deque might keep them
+// (slots outside the live window, capacity beyond len, a second buffer ...). Elements are heap objects with
+// finalizers; after a garbage collection every popped or overwritten one must have been finalized.
+
+func scaleDequeGC(c *Case, res map[string]any, fail func(string, ...any)) {
+	rng := rand.New(rand.NewSource(int64(num(c.Cfg["seed"]))))
+	steps := num(c.Cfg["steps"])
+	style, _ := c.Cfg["style"].(string)
+	var mu sync.Mutex
+	finalized := map[int]bool{}
+	nextID := 0
+	mk := func() *gcBox {
+		mu.Lock()
+		id := nextID
+		nextID++
+		mu.Unlock()
+		b := &gcBox{id: id}
+		runtime.SetFinalizer(b, func(o *gcBox) {
+			mu.Lock()
+			finalized[o.id] = true
+			mu.Unlock()
+		})
+		return b
+	}
+	var dead []int
+	var live []int // ids currently stored, front to back
+	d := new(deque.Deque[*gcBox])
+	done := make(chan struct{})
+	go func() {
+		defer close(done)
+		pushB := func() { b := mk(); live = append(live, b.id); d.PushBack(b) }
+		pushF := func() { b := mk(); live = append([]int{b.id}, live...); d.PushFront(b) }
+		popF := func() {
+			if len(live) > 0 {
+				dead = append(dead, live[0])
+				live = live[1:]
+				d.PopFront()
+			}
+		}
+		popB := func() {
+			if len(live) > 0 {
+				dead = append(dead, live[len(live)-1])
+				live = live[:len(live)-1]
+				d.PopBack()
+			}
+		}
+		if style == "offset-shrink" {
+			// a front offset larger than the new capacity at the time of Shrink, then the survivors are popped
+			for i := 0; i < 16; i++ {
+				pushB()
+			}
+			for i := 0; i < 8; i++ {
+				popF()
+			}
+			d.Shrink(0)
+			for len(live) > 0 {
+				popF()
+			}
+		}
+		for i := 0; i < steps; i++ {
+			switch r := rng.Intn(100); {
+			case r < 30:
+				pushB()
+			case r < 45:
+				pushF()
+			case r < 62:
+				popF()
+			case r < 78:
+				popB()
+			case r < 84:
+				d.Shrink(rng.Intn(3))
+			case r < 88:
+				d.Grow(rng.Intn(40))
+			case r < 92 && len(live) > 0:
+				k := rng.Intn(len(live))
+				b := mk()
+				dead = append(dead, live[k])
+				live[k] = b.id
+				d.Set(k, b)
+			case r < 96:
+				for j := rng.Intn(20); j > 0; j-- {
+					pushB()
+				}
+			default:
+				for j := rng.Intn(25); j > 0; j-- {
+					popF()
+				}
+			}
+		}
+		if c.Cfg["drain"] == true {
+			for len(live) > 0 {
+				if rng.Intn(2) == 0 {
+					popF()
+				} else {
+					popB()
+				}
+			}
+			d.Shrink(rng.Intn(2))
+		}
+	}()
+	<-done
+	if d.Len() != len(live) {
+		fail("Len() = %d with %d elements stored", d.Len(), len(live))
+		return
+	}
+	deadline := time.Now().Add(20 * time.Second)
+	miss := 0
+	for {
+		runtime.GC()
+		time.Sleep(5 * time.Millisecond)
+		miss = 0
+		mu.Lock()
+		for _, id := range dead {
+			if !finalized[id] {
+				miss++
+			}
+		}
+		mu.Unlock()
+		if miss == 0 || time.Now().After(deadline) {
+			break
+		}
+	}
+	mu.Lock()
+	for _, id := range live {
+		if finalized[id] {
+			mu.Unlock()
+			fail("an element still stored in the deque was garbage collected (harness error?)")
+			return
+		}
+	}
+	mu.Unlock()
+	res["popped_objects"] = len(dead)
+	if miss > 0 {
+		fail("%d of the %d popped or overwritten elements are still reachable from the deque after garbage collection (%d elements stored, style %q)", miss, len(dead), len(live), style)
+	}
+	runtime.KeepAlive(d)
 }
